@@ -266,6 +266,79 @@ inline int worker_main(int argc, char** argv) {
         std::printf("RESULT %s\n", first.c_str());
         return bad ? 1 : 0;
     }
+    if (args[0] == "enum-sched" || args[0] == "enum-cfg") {
+        // Bounded exhaustive enumeration (SmallCheck style) with the same harness and oracle:
+        //   enum-sched <file> --maxpre K [--shard i --nshards n]  : every list schedule with <= K preemptions over the first L decisions of a fixed program
+        //   enum-cfg <target>                                      : every configuration vector within the target's cfg ranges, default schedule
+        std::string outp = opt("--out", ""), replay_out = opt("--replay-out", "replay.case");
+        long shard = std::atol(opt("--shard", "0").c_str()), nshards = std::max(1L, std::atol(opt("--nshards", "1").c_str()));
+        long cap = std::atol(opt("--cap", "3000000").c_str());
+        long evals = 0, idx = 0; bool capped = false; std::unordered_set<uint64_t> sigs; long nontriv = 0;
+        std::vector<std::string> samples;
+        Case base; Target* T = nullptr; int K = std::atoi(opt("--maxpre", "2").c_str()); long L = 0; int F = 2;
+        auto finish = [&](bool viol, const Outcome* o, const Case* cs) {
+            if (viol) { std::ofstream rf(replay_out); rf << to_text(*cs); rf.close();
+                std::printf("FOUND target=%s kind=%s msg=%s replay=%s\n", T->name.c_str(), o->res.kind.c_str(), o->res.msg.c_str(), replay_out.c_str()); }
+            if (!outp.empty()) {
+                std::ofstream of(outp);
+                of << "{\"target\":\"" << T->name << "\",\"violation\":" << (viol ? "true" : "false");
+                if (viol) of << ",\"kind\":\"" << json_escape(o->res.kind) << "\",\"msg\":\"" << json_escape(o->res.msg) << "\",\"replay\":\"" << json_escape(replay_out) << "\"";
+                of << ",\"evaluations\":" << evals << ",\"nontrivial\":" << nontriv << ",\"inconclusive\":0,\"early_stop\":" << (capped ? "true" : "false")
+                   << ",\"exhaustive\":" << (capped ? "false" : "true") << ",\"bound\":\"" << (args[0] == "enum-sched" ? ("all list schedules with <= " + std::to_string(K) + " preemptions over the first " + std::to_string(L) + " decisions, " + std::to_string(F) + " fibers") : std::string("all configuration vectors")) << "\""
+                   << ",\"wall_s\":0,\"rule\":\"" << json_escape(T->nt_rule) << "\",\"labels\":{},\"samples\":[";
+                for (size_t k = 0; k < samples.size(); ++k) of << (k ? "," : "") << "\"" << json_escape(samples[k]) << "\"";
+                of << "],\"sigs\":[";
+                { bool f2 = true; for (uint64_t sg : sigs) { of << (f2 ? "" : ",") << "\"" << std::hex << sg << std::dec << "\""; f2 = false; } }
+                of << "]}\n";
+            }
+            std::printf("DONE target=%s evaluations=%ld exhaustive=%d\n", T->name.c_str(), evals, capped ? 0 : 1);
+            return viol ? 1 : 0;
+        };
+        auto run_one = [&](const Case& cs, Outcome& o) {
+            o = T->run(cs); evals++;
+            if (o.nontrivial) { nontriv++; sigs.insert(program_hash(cs) ^ (o.res.trace_hash * 0x9E3779B97F4A7C15ull) ^ o.sig); if (samples.size() < 2) samples.push_back(to_text(cs)); }
+            return o.res.violation;
+        };
+        if (args[0] == "enum-cfg") {
+            auto it2 = targets().find(args[1]);
+            if (it2 == targets().end()) return 2;
+            T = &it2->second;
+            const GenSpec& G = T->spec;
+            base.target = T->name; base.fibers.resize((size_t)G.nfibers); base.sched.step_budget = G.step_budget;
+            std::vector<int> cfg(G.cfg_max.size(), 0);
+            for (;;) {
+                if (idx++ % nshards == shard) { Case cs = base; cs.cfg = cfg; Outcome o; if (run_one(cs, o)) return finish(true, &o, &cs); }
+                size_t d = 0;
+                while (d < cfg.size()) { if (++cfg[d] < G.cfg_max[d]) break; cfg[d] = 0; ++d; }
+                if (d == cfg.size()) break;
+            }
+            return finish(false, nullptr, nullptr);
+        }
+        {
+            std::ifstream in(args[1]); std::stringstream ss; ss << in.rdbuf();
+            if (!from_text(ss.str(), base)) { std::printf("RESULT bad-case-file\n"); return 2; }
+            auto it2 = targets().find(base.target);
+            if (it2 == targets().end()) return 2;
+            T = &it2->second;
+        }
+        base.sched.mode = 0; base.sched.bytes.clear();
+        { Outcome o0 = T->run(base); L = std::min<long>(o0.res.decisions + 6, 120); F = 1; for (auto& f : base.fibers) if (!f.empty()) F++; }
+        // enumerate sparse schedules: k positions, values 1..F
+        std::vector<long> pos; std::vector<int> val;
+        std::function<bool(int, long)> rec = [&](int k, long start) -> bool {
+            if (evals >= cap) { capped = true; return false; }
+            if (idx++ % nshards == shard) {
+                Case cs = base; cs.sched.bytes.assign((size_t)L, 0);
+                for (size_t q = 0; q < pos.size(); ++q) cs.sched.bytes[(size_t)pos[q]] = (uint8_t)val[q];
+                Outcome o; if (run_one(cs, o)) { finish(true, &o, &cs); return true; }
+            }
+            if (k == 0) return false;
+            for (long p2 = start; p2 < L; ++p2) for (int v = 1; v <= F; ++v) { pos.push_back(p2); val.push_back(v); bool hit = rec(k - 1, p2 + 1); pos.pop_back(); val.pop_back(); if (hit) return true; if (capped) return false; }
+            return false;
+        };
+        if (rec(K, 0)) return 1;
+        return finish(false, nullptr, nullptr);
+    }
     if (args[0] != "gen" || args.size() < 2) return 2;
     auto it = targets().find(args[1]);
     if (it == targets().end()) { std::fprintf(stderr, "unknown target %s\n", args[1].c_str()); return 2; }
